@@ -170,15 +170,16 @@ type Violation struct {
 }
 
 type World struct {
-	Cfg     Config
-	App     *app.ElysApp
-	DB      dbm.DB
-	Home    string
-	Users   []*Actor
-	Feeder  *Actor
-	Feeders []*Actor
-	Voter   *Actor
-	All     []*Actor
+	Cfg       Config
+	SubSecond bool // block times carry a sub-second part (see SubSecondJobs)
+	App       *app.ElysApp
+	DB        dbm.DB
+	Home      string
+	Users     []*Actor
+	Feeder    *Actor
+	Feeders   []*Actor
+	Voter     *Actor
+	All       []*Actor
 	// PhaseEvents: events emitted so far in the running begin- / end-block, refreshed before every
 	// module-probe call
 	PhaseEvents []abci.Event
@@ -471,6 +472,7 @@ func NewWorld(cfg Config) *World {
 	}
 	w := &World{Cfg: cfg, Home: home, Now: cfg.genesisTime(), Prices: map[string]math.LegacyDec{}, Silent: map[string]bool{}, byAddr: map[string]*Actor{},
 		OkCount: map[string]int{}, FailCount: map[string]int{}, FailLogs: map[string]string{}}
+	w.SubSecond = SubSecondJobs
 	w.Gov = authtypes.NewModuleAddress(govtypes.ModuleName).String()
 	if cfg.LevelDBDir != "" {
 		db, err := dbm.NewGoLevelDB("application", cfg.LevelDBDir, nil)
@@ -527,11 +529,33 @@ func (w *World) ActorByAddr(addr string) *Actor { return w.byAddr[addr] }
 
 // ReadCtx returns a discarded branch of the committed state with an infinite gas meter.
 func (w *World) ReadCtx() sdk.Context {
-	return ReadCtxOf(w.App, w.Height, w.Now)
+	return ReadCtxOf(w.App, w.Height, w.Now, w.Nanos(w.Height))
 }
 
-func ReadCtxOf(a *app.ElysApp, height, now int64) sdk.Context {
-	c := a.BaseApp.NewUncachedContext(false, cmtproto.Header{ChainID: ChainID, Height: height, Time: time.Unix(now, 0).UTC()})
+// SubSecondJobs makes the block times of every world of this process carry a sub-second part, as
+// the block times of a production chain always do (set by the job runner: two of every three
+// instances; the remaining third keeps whole seconds). All of the repository's time rules work on
+// whole unix seconds; code that compares at a finer precision is only exposed by such times.
+var SubSecondJobs bool
+
+// Nanos is the sub-second part of the block time at a height: a fixed function of the height,
+// never zero, and for one height in five within 2 ms of the next whole second.
+func (w *World) Nanos(height int64) int64 {
+	if !w.SubSecond {
+		return 0
+	}
+	n := (height*618033989 + 123456789) % 1_000_000_000
+	if height%5 == 3 {
+		n = 998_000_001 + n%1_999_998
+	}
+	if n == 0 {
+		n = 1
+	}
+	return n
+}
+
+func ReadCtxOf(a *app.ElysApp, height, now, nanos int64) sdk.Context {
+	c := a.BaseApp.NewUncachedContext(false, cmtproto.Header{ChainID: ChainID, Height: height, Time: time.Unix(now, nanos).UTC()})
 	cc, _ := c.CacheContext()
 	return cc.WithGasMeter(storeInfiniteGas())
 }
@@ -589,7 +613,7 @@ func (w *World) RunBlock(dt int64, txs ...*TxRecord) *BlockRecord {
 		blk.Txs = append(blk.Txs, t)
 		raws = append(raws, t.Raw)
 	}
-	blk.Req = &abci.RequestFinalizeBlock{Height: w.Height, Time: time.Unix(w.Now, 0).UTC(), Txs: raws, NextValidatorsHash: w.ValSet.Hash(), ProposerAddress: w.Val.Address,
+	blk.Req = &abci.RequestFinalizeBlock{Height: w.Height, Time: time.Unix(w.Now, w.Nanos(w.Height)).UTC(), Txs: raws, NextValidatorsHash: w.ValSet.Hash(), ProposerAddress: w.Val.Address,
 		DecidedLastCommit: abci.CommitInfo{Votes: []abci.VoteInfo{{Validator: abci.Validator{Address: w.Val.Address, Power: 1}, BlockIdFlag: cmtproto.BlockIDFlagCommit}}}}
 	w.cur = blk
 	res, err, stack := SafeFinalize(w.App, blk.Req)
